@@ -171,3 +171,45 @@ Proof.
     assert (Hm : isb 45 minus_byte = true) by (unfold isb; rewrite N_of_minus; reflexivity).
     rewrite Hm. cbn [fst snd]. rewrite int_body_dec_of_N by lia. reflexivity.
 Qed.
+
+(* ------------------------------------------------------------------------------------------ *)
+(* the strict grammar of fix 4abdbc1 accepts exactly what '%d' prints                            *)
+(* ------------------------------------------------------------------------------------------ *)
+
+Lemma isb48_not_zero b : b <> digit_byte 0 -> isb 48 b = false.
+Proof.
+  intro H. unfold isb. apply N.eqb_neq. intro E. apply H.
+  rewrite <- (byte_of_N_of_byte b). rewrite E. reflexivity.
+Qed.
+
+Lemma len_shape_dec_of_N n : len_shape (dec_of_N n) = true.
+Proof.
+  pose proof (dec_of_N_all_digits n) as Hd.
+  destruct (N.eq_dec n 0) as [->|Hn].
+  - rewrite dec_of_N_0. cbn [len_shape forallb]. rewrite is_digit_digit_byte by lia.
+    cbn [andb]. apply orb_true_r.
+  - pose proof (dec_of_N_no_leading_zero n ltac:(lia)) as Hz.
+    destruct (dec_of_N n) as [|b r] eqn:E; [exfalso; eapply dec_of_N_nonempty; exact E|].
+    cbn [hd] in Hz. cbn [forallb] in Hd. apply andb_true_iff in Hd as [Hb Hr].
+    cbn [len_shape]. rewrite Hb, Hr, (isb48_not_zero b Hz). reflexivity.
+Qed.
+
+Lemma strict_len_dec_of_N n : n < NBOUND -> strict_len (dec_of_N n) = Some (Z.of_N n).
+Proof. intro H. unfold strict_len. rewrite len_shape_dec_of_N. apply py_int_dec_of_N. exact H. Qed.
+
+Lemma int_shape_dec_of_Z z : int_shape (dec_of_Z z) = true.
+Proof.
+  assert (Hpos : forall n, int_shape (dec_of_N n) = true).
+  { intro n. pose proof (len_shape_dec_of_N n) as Hs. pose proof (dec_of_N_Forall n) as Hd.
+    destruct (dec_of_N n) as [|b r] eqn:E; [discriminate|]. inversion Hd as [|? ? Hb _]; subst.
+    cbn [int_shape]. rewrite (isb_digit 45 b Hb) by lia. exact Hs. }
+  destruct z as [|p|p]; cbn [dec_of_Z]; try apply Hpos.
+  cbn [int_shape]. unfold isb at 1. rewrite N_of_minus. cbn [N.eqb Pos.eqb].
+  pose proof (len_shape_dec_of_N (Npos p)) as Hs.
+  pose proof (dec_of_N_no_leading_zero (Npos p) ltac:(lia)) as Hz.
+  destruct (dec_of_N (Npos p)) as [|c r] eqn:E; [discriminate|]. cbn [hd] in Hz.
+  rewrite (isb48_not_zero c Hz). exact Hs.
+Qed.
+
+Lemma strict_int_dec_of_Z z : int_ok z -> strict_int (dec_of_Z z) = Some z.
+Proof. intro H. unfold strict_int. rewrite int_shape_dec_of_Z. apply py_int_dec_of_Z. exact H. Qed.
